@@ -367,7 +367,7 @@ def _(c, L):
     yield "sides_of_done_gone", is_delete(E.t(NS), S.t(NS), lambda r: L.done(r.nameplates_id))
     did = And(H.CFG_USAGE, L.k >= 1)
     yield "usage", If(did, np_usage_rel(E.t(UNP), S.t(UNP), E.t(NS), rows.rid[0], a, when),
-                      tbl_eq(E.t(UNP), S.t(UNP)))
+                      tbl_eq(E.t(UNP), S.t(UNP))), ["I1", "I6", "I8a", "app_consistent"]
     yield "in_tx_us", If(did, S.in_tx["us"], S.in_tx["us"] == E.in_tx["us"])
     from pvc.state import arrays_equal
     yield "untouched_before_first", Implies(L.k == 0, And(arrays_equal(E.t(NS), S.t(NS)), arrays_equal(E.t(UNP), S.t(UNP))))
